@@ -181,7 +181,7 @@ func Capture(n *lab.Node, apphash []byte, noDisk bool) *State {
 // Exec runs a history on a fresh node.
 func Exec(w *worlds.World, h History, o Opts) *Trace {
 	tr := &Trace{W: w, Hist: h}
-	n, f := lab.NewNode(w.P, w.Genesis())
+	n, f := startNode(w)
 	if o.KeepNode {
 		tr.Node = n
 	} else {
@@ -214,8 +214,18 @@ func Exec(w *worlds.World, h History, o Opts) *Trace {
 				return tr
 			}
 		}
-		st := Step{Block: b, Height: n.Height + 1}
 		es := w.Envs[b.Env]
+		// fast-forward macro step: FF empty default blocks before the block proper
+		for i := 0; i < es.FF; i++ {
+			fo := n.RunBlock(lab.Env{}, nil)
+			if fo.Fault != nil {
+				st := Step{Block: b, Height: fo.Height, Obs: fo}
+				tr.Steps = append(tr.Steps, st)
+				tr.Fault = fo.Fault
+				return tr
+			}
+		}
+		st := Step{Block: b, Height: n.Height + 1}
 		env := es.Env
 		if es.Dyn != nil {
 			env = es.Dyn(n)
@@ -350,4 +360,36 @@ func renderCached(t *worlds.Tx, nonce uint64) []byte {
 	b := t.Render(nonce)
 	renderCache.Store(k, b)
 	return b
+}
+
+// startNode returns a node right after InitChain, or — for worlds with a warm-up — a node
+// rebuilt over a copy of the databases of a checkpoint taken after Warmup empty blocks.
+// The checkpoint relies on restart equivalence at that one quiescent boundary (C09 checks it).
+func startNode(w *worlds.World) (*lab.Node, *lab.Fault) {
+	if w.Warmup <= 0 {
+		return lab.NewNode(w.P, w.Genesis())
+	}
+	w.CkOnce.Do(func() {
+		n, f := lab.NewNode(w.P, w.Genesis())
+		if f != nil {
+			w.CkFault = f
+			return
+		}
+		for i := 0; i < w.Warmup; i++ {
+			var env lab.Env
+			if w.WarmupEnv != nil {
+				env = w.WarmupEnv(n, i)
+			}
+			if o := n.RunBlock(env, nil); o.Fault != nil {
+				w.CkFault = o.Fault
+				return
+			}
+		}
+		w.CkSet, w.CkHeight, w.CkTime = n.Set, n.Height, n.LastTime
+		n.Release()
+	})
+	if w.CkFault != nil {
+		return &lab.Node{Dead: w.CkFault}, w.CkFault
+	}
+	return lab.Reopen(w.CkSet.Clone(), w.P, w.CkHeight, w.CkTime)
 }
